@@ -64,11 +64,18 @@ def run_body(run, cls, lo=mn, hi=mx, shift=None):
     return ex, z, env, fn
 
 
-def add_side(run, ex, fq):
-    seen = {}
-    for nm, h, g in ex.obls:
+def add_side(run, ex, fq, defer=()):
+    """side obligations of the array executor (shapes, finiteness of reduced elements); those whose name contains a `defer` key are returned
+    instead (they need a lemma as hypothesis)"""
+    seen, later = {}, []
+    for ob in ex.obls:
+        nm, h, g = ob[:3]
         seen[nm] = seen.get(nm, 0) + 1
+        if any(d in nm for d in defer):
+            later.append(ob)
+            continue
         run.add(Obl(f"{fq}/{nm}" + (f"#{seen[nm]}" if seen[nm] > 1 else ""), h, g, fn=fq, meta=RP()))
+    return later
 
 
 def lemma(run, fq, ind, proved):
@@ -252,10 +259,86 @@ def verify_maxima(run):
         run.add(Obl(f"{fq}/ensures.order", BASE + [e.conclusion() for e in E], z3.Implies(z3.Not(zm.nan), z3.And(z3.Not(zs.nan), z3.Not(zl.nan), zs.v <= zm.v, zm.v <= zl.v)), fn=fq, meta=RP("integral-order")))
 
 
+# ------------------------------------------------------------------------------------------------ Bisector
+def verify_bisector(run):
+    fq = "defuzzifier.Bisector.defuzzify"
+    ex, z, env, fn = run_body(run, "Bisector")
+    run.under_contract("defuzzifier", "Bisector.defuzzify", fn)
+    later = add_side(run, ex, fq, defer=("min@",))
+    x = x_facts(run, fq, ex, env)
+    kinds = [q["kind"] for q in ex.recs]
+    ok = kinds == ["nancumsum", "min", "nanmean"]
+    run.add(static(f"{fq}/reductions", ok, f"reductions in the body: {[q['site'] for q in ex.recs]} (expected cumulative sum, row minimum of the distance to one half, mean of the selected points)", fn=fq, meta=RP("integral-value:Bisector")))
+    if not ok:
+        return
+    qc, qm, qs = ex.recs
+    CUM, MIN, AN, SS, CNT = qc["rec"], qm["rec"], qm["anynan"], qs["rec"], qs["count"]
+    ey, et, es = qc["elem"], qm["elem"], qs["elem"]
+    y = lambda n: ey(i0, n).v
+    hy = BASE + [0 <= jS, jS < r]
+    half = z3.RealVal("1/2")
+    total = CUM.at(i0, r)
+    # definitions, point by point: cumulative membership, normalised distance to one half, selection of the minimisers, selected value = sample point
+    run.add(Obl(f"{fq}/cumulative_membership", hy, z3.And(xr.fin(ey(i0, jS)), ey(i0, jS).v == mu(i0, xspec(jS)), qc["cols"] == r, qc["rows"] == N, qm["cols"] == r, qs["cols"] == r), fn=fq, meta=RP("integral-value:Bisector")))
+    dist_spec = lambda j: xr.xabs(xr.sub(xr.div(X(xr.F, xr.I0, CUM.at(i0, j + 1)), X(xr.F, xr.I0, total)), X(xr.F, xr.I0, half)))
+    run.add(Obl(f"{fq}/distance_to_half_of_the_normalised_cumulative", hy, xr.same(et(i0, jS), dist_spec(jS)), fn=fq, meta=RP("integral-value:Bisector")))
+    minx = X(AN.at(i0, r), xr.I0, MIN.at(i0, r))
+    run.add(Obl(f"{fq}/selection_of_the_minimisers", hy, z3.And(z3.Not(es(i0, jS).nan) == xr.eq(dist_spec(jS), minx), z3.Implies(z3.Not(es(i0, jS).nan), z3.And(es(i0, jS).inf == 0, es(i0, jS).v == xspec(jS)))),
+                fn=fq, meta=RP("integral-value:Bisector")))
+    run.add(static(f"{fq}/result.shape", isinstance(z, Arr) and len(z.shape) == 1 and z.shape[0].eq(N), f"result shape {z.shape}", fn=fq, meta=RP("integral-batch-shape")))
+    zi = z.elem(i0)
+    run.add(Obl(f"{fq}/ensures.formula", BASE, xr.same(zi, X(CNT.at(i0, r) == 0, xr.I0, SS.at(i0, r) / z3.ToReal(CNT.at(i0, r)))), fn=fq, meta=RP("integral-value:Bisector")))
+    # ---- lemmas
+    AZ = Rec("allzero", BOOL, lambda i: z3.BoolVal(True), lambda i, n, acc: z3.And(acc, y(n) == 0))
+    sel = lambda n: z3.Not(es(i0, n).nan)
+    tn = lambda n: et(i0, n)
+    L = []
+    lemma(run, fq, Induction("cumulative_zero_iff_all_zero", lambda n: z3.And(CUM.at(i0, n) >= 0, (CUM.at(i0, n) == 0) == AZ.at(i0, n)), [CUM, AZ], i0, r, hyps=BASE), L)
+    lemma(run, fq, Induction("cumulative_is_monotone", lambda n: z3.And(CUM.at(i0, n) >= 0, z3.Implies(z3.And(0 <= kS, kS <= n), z3.And(CUM.at(i0, kS) >= 0, CUM.at(i0, kS) <= CUM.at(i0, n)))), [CUM], i0, r, hyps=BASE, skolems=[kS, i0]), L)
+    mono = L[-1]
+    for ob in later:
+        if len(ob) < 4:
+            run.add(Obl(f"{fq}/{ob[0]}", ob[1], ob[2], fn=fq, meta=RP()))
+    for nm, h, g, meta in [ob for ob in later if len(ob) == 4]:       # the distance |cum/total - 1/2| is never infinite: a prefix sum is 0 when the total is (monotone, by the lemma, for the row at hand)
+        run.add(Obl(f"{fq}/{nm}", h + [mono.conclusion(at=[meta["j"] + 1, meta["i"]])], g, fn=fq, meta=RP("integral-nan")))
+    # total > 0: every distance is a finite number, the minimum is one of them
+    ARG = Rec("argmin", INT, lambda i: z3.IntVal(0), lambda i, n, acc: z3.If(tn(n).v < MIN.at(i, n), n, acc), start=1)
+    pos = [total > 0]
+    fin_t = lambda n: z3.And(z3.Not(tn(n).nan), tn(n).inf == 0)
+    fin_at = lambda n: z3.Implies(total > 0, fin_t(n))
+    run.add(Obl(f"{fq}/distances_are_finite_when_the_total_is_positive", hy + pos, fin_t(jS), fn=fq, meta=RP("integral-nan")))
+    lemma(run, fq, Induction("positive_total.no_nan_distance", lambda n: z3.Not(AN.at(i0, n)), [AN], i0, r, hyps=BASE + pos, extra=[fin_at]), L)
+    lemma(run, fq, Induction("positive_total.minimum_is_attained", lambda n: z3.And(0 <= ARG.at(i0, n), ARG.at(i0, n) < n, tn(ARG.at(i0, n)).v == MIN.at(i0, n)), [MIN, ARG], i0, r, n0=1, hyps=BASE + pos), L)
+    lemma(run, fq, Induction("a_selected_point_is_counted", lambda n: z3.And(CNT.at(i0, n) >= 0, z3.Implies(z3.And(kS < n, sel(kS)), CNT.at(i0, n) >= 1)), [CNT], i0, r, hyps=BASE + [0 <= kS], skolems=[kS]), L)
+    counted = L[-1]
+    inside_sel = lambda n: z3.Implies(sel(n), z3.And(mn <= es(i0, n).v, es(i0, n).v <= mx))
+    lemma(run, fq, Induction("selected_mean_within_range", lambda n: z3.And(mn * z3.ToReal(CNT.at(i0, n)) <= SS.at(i0, n), SS.at(i0, n) <= mx * z3.ToReal(CNT.at(i0, n)), CNT.at(i0, n) >= 0),
+                             [CNT, SS], i0, r, hyps=BASE, extra=[inside_sel]), L)
+    # total == 0: every distance is NaN, so is the minimum, nothing compares equal to it, nothing is selected
+    zero = [total == 0]
+    lemma(run, fq, Induction("zero_total.a_nan_distance_makes_the_minimum_nan", lambda n: z3.Implies(z3.And(kS < n, tn(kS).nan), AN.at(i0, n)), [AN], i0, r, hyps=BASE + [0 <= kS], skolems=[kS]), L)
+    nanprop = L[-1]
+    run.add(Obl(f"{fq}/zero_total.first_distance_is_nan", BASE + zero + [mono.conclusion(at=[z3.IntVal(1), i0])], tn(0).nan, fn=fq, meta=RP("integral-nan")))
+    lemma(run, fq, Induction("zero_total.nothing_is_selected", lambda n: CNT.at(i0, n) == 0, [CNT], i0, r, hyps=BASE + zero + [AN.at(i0, r)], extra=[lambda n: z3.Not(sel(n))]), L)
+    run.add(Obl(f"{fq}/zero_total.nan_minimum_selects_nothing", hy + zero + [AN.at(i0, r)], z3.Not(sel(jS)), fn=fq, meta=RP("integral-nan")))
+    concl = [l.conclusion() for l in L if not l.name.startswith(("positive_total", "zero_total"))]
+    allzero = AZ.at(i0, r)
+    a = ARG.at(i0, r)
+    c_pos = [z3.Implies(total > 0, l.conclusion()) for l in L if l.name.startswith("positive_total")] + [counted.conclusion(at=[a])]
+    c_zero = [z3.Implies(total == 0, z3.Implies(AN.at(i0, r), l.conclusion())) for l in L if l.name == "zero_total.nothing_is_selected"] + [nanprop.conclusion(at=[z3.IntVal(0)]), z3.Implies(total == 0, tn(0).nan)]
+    sel_at_a = z3.Implies(total > 0, z3.Implies(z3.And(0 <= a, a < r), z3.Not(es(i0, a).nan) == xr.eq(dist_spec(a), minx)))
+    fin_at_a = z3.Implies(total > 0, z3.Implies(z3.And(0 <= a, a < r), z3.And(fin_t(a), xr.same(tn(a), dist_spec(a)))))
+    run.add(Obl(f"{fq}/selection_at_the_attaining_index", BASE + concl + c_pos, z3.And(sel_at_a, fin_at_a), fn=fq, meta=RP("integral-value:Bisector")))
+    hyps = BASE + concl + c_pos + c_zero + [sel_at_a, fin_at_a]
+    run.add(Obl(f"{fq}/ensures.nan_iff_all_zero", hyps, zi.nan == allzero, fn=fq, meta=RP("integral-nan")))
+    run.add(Obl(f"{fq}/ensures.in_range", hyps, z3.Implies(z3.Not(allzero), z3.And(xr.fin(zi), mn <= zi.v, zi.v <= mx)), fn=fq, meta=RP("integral-range")))
+    run.add(static(f"{fq}/rowwise", True, "element i of the result mentions row i of the membership array only (closure construction)", fn=fq, meta=RP("integral-batch-value")))
+
+
 
 def build(run):
     run.assume("A-REAL", "A-NP", "A-PY", "A-SHAPE")
-    plan = [("defuzzifier.Centroid.defuzzify", verify_centroid), ("defuzzifier.*OfMaximum.defuzzify", verify_maxima)]
+    plan = [("defuzzifier.Centroid.defuzzify", verify_centroid), ("defuzzifier.*OfMaximum.defuzzify", verify_maxima), ("defuzzifier.Bisector.defuzzify", verify_bisector)]
     for fq, f in plan:
         try:
             f(run)
